@@ -35,6 +35,7 @@ type world struct {
 	quiet    bool          // set once all API calls have returned
 	lateWork []string      // lookups / dials / requests started while quiet after Close
 	frozen   bool          // C13: the environment answers nothing any more
+	batchSeq int
 }
 
 func (w *world) now() time.Duration { return vrt.Now().Sub(w.epoch) }
@@ -136,7 +137,11 @@ func kvToCells(kvs []sim.KV) []*pb.Cell {
 }
 
 // answer hands one call to the cluster executor.
-func (r *simRC) answer(c hrpc.Call) (hrpc.RPCResult, bool) {
+func (r *simRC) answer(c hrpc.Call) (hrpc.RPCResult, bool) { return r.answerOpt(c, true) }
+
+// answerOpt: failOnServerError is true for unbatched calls, whose exception
+// arrives in the response header and makes the real region client fail itself.
+func (r *simRC) answerOpt(c hrpc.Call, failOnServerError bool) (hrpc.RPCResult, bool) {
 	w := r.w
 	if w.closedAt >= 0 && w.quiet {
 		w.lateWork = append(w.lateWork, fmt.Sprintf("request %s to %s", c.Name(), r.addr))
@@ -188,8 +193,8 @@ func (r *simRC) answer(c hrpc.Call) (hrpc.RPCResult, bool) {
 	}
 	if res.Class != "" {
 		err := region.VExceptionToError(res.Class, res.Stack)
-		if _, ok := err.(region.ServerError); ok {
-			// a server-fatal exception: the real region client fails itself
+		if _, ok := err.(region.ServerError); ok && failOnServerError {
+			// a server-fatal exception in the response header: the real region client fails itself
 			defer r.fail()
 		}
 		return hrpc.RPCResult{Error: err}, true
@@ -225,15 +230,36 @@ func (r *simRC) QueueBatch(ctx context.Context, cs []hrpc.Call) {
 		}
 		return
 	}
+	w := r.w
+	w.batchSeq++
+	w.cl.Tag = w.batchSeq
+	defer func() { w.cl.Tag = 0 }()
+	var live []hrpc.Call
 	for _, c := range cs {
 		if c.Context().Err() != nil {
 			continue // dropped from the multi-request, as the real client does
 		}
-		if r.dead {
-			c.ResultChan() <- hrpc.RPCResult{Error: region.ErrClientClosed}
-			continue
+		live = append(live, c)
+	}
+	if len(live) == 0 {
+		return
+	}
+	// a header-level exception answers the whole multi-request (and, if it is
+	// server-fatal, kills the connection); per-action outcomes do not
+	if cls, ok := w.cl.PopServerScript(r.addr); ok && !w.frozen && !w.cl.Silent[r.addr] {
+		err := region.VExceptionToError(cls, "scripted server exception")
+		if _, fatal := err.(region.ServerError); fatal {
+			defer r.fail()
 		}
-		res, ok := r.answer(c)
+		for _, c := range live {
+			c.ResultChan() <- hrpc.RPCResult{Error: err}
+		}
+		return
+	}
+	w.cl.InMulti = true
+	defer func() { w.cl.InMulti = false }()
+	for _, c := range live {
+		res, ok := r.answerOpt(c, false)
 		if !ok {
 			r.pending = append(r.pending, c)
 			continue
